@@ -76,6 +76,11 @@ class DecodeState:
             odxraise("The bit length of FLOAT64 values must be 64 bits")
             bit_length = 64
 
+        if bit_length % 8 != 0 and base_data_type.bitstruct_format_letter == "r":
+            # this can happen e.g. for objects exhibiting a length key
+            raise DecodeError(f"The bit length of {base_data_type.value} objects must be a "
+                              f"multiple of 8 (is: {bit_length})")
+
         byte_length = (bit_length + self.cursor_bit_position + 7) // 8
         if self.cursor_byte_position + byte_length > len(self.coded_message):
             raise DecodeError(f"Expected a longer message.")
